@@ -11,7 +11,20 @@
 (*    the real codec on one input (totality, bound, canonical fixpoint,     *)
 (*    value round trip, extension data preserved);                          *)
 (*  - the mutation PLAN (message type or failure code x operator x position *)
-(*    class) that TLC enumerates and the executor has to cover exactly.     *)
+(*    class) that TLC enumerates and the executor has to cover exactly;     *)
+(*  - the VALUE-BOUNDARY part of that plan (operators val-int, val-bytes,   *)
+(*    val-len): every scalar, fixed-size and length-prefixed field of a     *)
+(*    generated message / failure value (found by walking the Go value:     *)
+(*    nested structs, embedded channel_update, optional TLV records,        *)
+(*    unexported failure fields) is driven through the boundary classes of  *)
+(*    its encoding (BigSize width boundaries 0xfc|0xfd, 0xffff|0x10000,     *)
+(*    0xffffffff|0x100000000, the maximum; byte arrays all-zero / interior  *)
+(*    zero followed by non-zero / all-0xff / invalid UTF-8; lengths 0, 1,   *)
+(*    0xfc, 0xfd, 0xff, 0x100).  The operator names the class, the          *)
+(*    repetition number selects the field (FieldOf).  What a well-formed    *)
+(*    value is for such a case is stated here (InDomain: the value domains  *)
+(*    BOLT gives the fields, not the Go types), and ValueLaw is the         *)
+(*    property's "decodes back to an equal value" for it.                   *)
 (***************************************************************************)
 EXTENDS Naturals, Sequences, FiniteSets, TLC
 
@@ -42,8 +55,15 @@ BufAfter(pre, plen) == IF WriteOk(plen) THEN pre + 2 + plen ELSE pre
 (* The mutation plan *)
 Kinds == <<"msg", "fail", "pkt">>          \* wire message | failure message | padded onion failure packet
 Ops == <<"valid", "trunc-1", "trunc", "trunc+1", "len-1", "len+1",
-         "tail-odd", "tail-even", "tail-unsorted", "tail-nonmin", "flip", "raw", "ext-odd", "len-max", "var-bound">>
-Poss == <<"-", "head", "mid", "tail", "short", "medium", "long">>
+         "tail-odd", "tail-even", "tail-unsorted", "tail-nonmin", "flip", "raw", "ext-odd", "len-max", "var-bound",
+         "val-int", "val-bytes", "val-len">>
+\* value-boundary classes (symbolic: TLC integers are 32 bit)
+IntClasses   == <<"i0", "ifc", "ifd", "iffff", "i10000", "iffffffff", "i100000000", "imax">>
+BytesClasses == <<"b00", "bz", "bff", "butf">>
+LenClasses   == <<"l0", "l1", "lfc", "lfd", "lff", "l100">>
+Poss == <<"-", "head", "mid", "tail", "short", "medium", "long">> \o IntClasses \o BytesClasses \o LenClasses
+Range(seq) == {seq[i] : i \in 1..Len(seq)}
+ValOps == {"val-int", "val-bytes", "val-len"}
 
 IndexOf(seq, x) == CHOOSE i \in 1..Len(seq) : seq[i] = x
 
@@ -54,10 +74,16 @@ IndexOf(seq, x) == CHOOSE i \in 1..Len(seq) : seq[i] = x
 PosOf(op) == CASE op \in {"trunc-1", "trunc", "trunc+1", "flip", "len-max", "var-bound"} -> {"head", "mid", "tail"}
                [] op \in {"len-1", "len+1"}                      -> {"head", "tail"}
                [] op = "raw"                                     -> {"short", "medium", "long"}
+               [] op = "val-int"                                 -> Range(IntClasses)
+               [] op = "val-bytes"                               -> Range(BytesClasses)
+               [] op = "val-len"                                 -> Range(LenClasses)
                [] OTHER                                          -> {"-"}
 \* ext-odd: not a byte mutation - the generated VALUE gets one more unknown odd record in its extension
 \* data (canonical position) before it is encoded
-OpsOf(kind) == CASE kind = "pkt"  -> {"valid", "trunc-1", "trunc", "trunc+1", "len-1", "len+1", "flip", "raw", "len-max"}
+\* val-*: not a byte mutation - ONE field of the generated VALUE is set to the value of the boundary class,
+\* then the value is encoded and the laws are judged on that encoding (all three codecs: the failure-specific
+\* fields of every failure code go through EncodeFailureMessage and through the padded EncodeFailure packet)
+OpsOf(kind) == CASE kind = "pkt"  -> {"valid", "trunc-1", "trunc", "trunc+1", "len-1", "len+1", "flip", "raw", "len-max"} \cup ValOps
                  [] kind = "fail" -> {Ops[i] : i \in 1..Len(Ops)} \ {"ext-odd", "var-bound"}
                  [] OTHER         -> {Ops[i] : i \in 1..Len(Ops)}
 TypesOf(kind) == IF kind = "msg" THEN MsgTypes ELSE FailCodes
@@ -76,11 +102,62 @@ Key(c, rep) == <<c.ki, c.t, c.oi, c.pi, rep>>
 KeyLess(a, b) == \E k \in 1..5 : a[k] < b[k] /\ \A j \in 1..(k-1) : a[j] = b[j]
 
 -----------------------------------------------------------------------------
+(* Value-boundary classes.  A field ("leaf") of a value is reported by the   *)
+(* executor as  fld = <declaring Go struct>.<field>, gotype, w (ints: bytes  *)
+(* of the Go type, 0 for a bool; byte arrays: their length), the number nf   *)
+(* of leaves of the operator's kind in the value and the index fi of the     *)
+(* one that was set, inlist = 1 if it belongs to an element of a list.       *)
+\* bytes needed to hold the integer of a class (imax = all ones of the field's own width)
+Need(cls, w) == CASE cls = "i0" -> 0 [] cls \in {"ifc", "ifd"} -> 1 [] cls = "iffff" -> 2 [] cls = "i10000" -> 3
+                  [] cls = "iffffffff" -> 4 [] cls = "i100000000" -> 5 [] OTHER -> w
+\* width of the BigSize encoding of the class value (what makes these values the boundaries)
+BigSizeWidth(cls, w) == CASE cls \in {"i0", "ifc"} -> 1 [] cls \in {"ifd", "iffff"} -> 3 [] cls \in {"i10000", "iffffffff"} -> 5
+                          [] cls = "i100000000" -> 9
+                          [] OTHER -> IF w = 0 THEN 1 ELSE IF w <= 2 THEN 3 ELSE IF w <= 4 THEN 5 ELSE 9
+LenOf(cls) == CASE cls = "l0" -> 0 [] cls = "l1" -> 1 [] cls = "lfc" -> 252 [] cls = "lfd" -> 253 [] cls = "lff" -> 255 [] OTHER -> 256
+\* the class exists for the leaf (a bool has 0 and "max" only; the byte patterns need some room)
+Fits(op, cls, w) == CASE op = "val-int"   -> cls \in Range(IntClasses) /\ Need(cls, w) <= w
+                      [] op = "val-bytes" -> cls \in Range(BytesClasses) /\ w >= 4
+                      [] OTHER            -> cls \in Range(LenClasses)
+\* which leaf a repetition drives: the repetitions cycle through the leaves of the value
+FieldOf(rep, nf) == ((rep - 1) % nf) + 1
+
+\* Domains that are narrower than the Go type of the field:
+\*   BOLT 7 short_channel_id = 3 bytes block height, 3 bytes tx index, 2 bytes output index;
+\*   BOLT 2 funding_output_index is 2 bytes; encoded_short_ids encoding type is 0 (plain) or 1 (zlib)
+NarrowTo == ("ShortChannelID.BlockHeight" :> 3) @@ ("ShortChannelID.TxIndex" :> 3) @@ ("OutPoint.Index" :> 2)
+            @@ ("QueryShortChanIDs.EncodingType" :> 0) @@ ("ReplyChannelRange.EncodingType" :> 0)
+\*   a DNS address needs a port
+NonZero == {"DNSAddress.Port"}
+\*   BOLT 7 channel_update message_flags bit 0 says whether htlc_maximum_msat is on the wire: setting the flags
+\*   alone changes the layout the OTHER fields of the value are judged by - not a scalar of its own
+LayoutFlags == {"ChannelUpdate1.MessageFlags"}
+\*   dyn_commit carries ONE channel_id, the Go value keeps it twice (embedded DynPropose and DynAck)
+Aliased == {<<117, "DynPropose.ChanID">>, <<117, "DynAck.ChanID">>}
+\*   66-byte musig2 public nonces are two curve points (the decoder validates them); node_announcement alias is text
+PointTypes == {"Musig2Nonce"}
+TextTypes  == {"NodeAlias"}
+\*   length domains: shutdown scripts are at most 34 bytes (BOLT 2 forms), node_announcement_2 alias is 1..32 bytes
+MinLen(gotype) == IF gotype = "NodeAlias2" THEN 1 ELSE 0
+MaxLen(gotype) == CASE gotype = "DeliveryAddress" -> 34 [] gotype = "NodeAlias2" -> 32 [] OTHER -> 65535
+
+InDomain(o) ==
+  CASE o.op = "val-int"   -> /\ (o.fld \in DOMAIN NarrowTo => Need(o.pos, o.w) <= NarrowTo[o.fld])
+                             /\ (o.fld \in NonZero => o.pos # "i0")
+                             /\ o.fld \notin LayoutFlags
+    [] o.op = "val-bytes" -> /\ o.gotype \notin PointTypes
+                             /\ (o.gotype \in TextTypes => o.pos \in {"b00", "bz"})
+                             /\ <<o.t, o.fld>> \notin Aliased
+    [] OTHER              -> LenOf(o.pos) >= MinLen(o.gotype) /\ LenOf(o.pos) <= MaxLen(o.gotype)
+
+-----------------------------------------------------------------------------
 (* The laws, over one observation o of the real codec on one input:         *)
 (*   d1      the input decoded                      e1   its re-encoding b2 succeeded, e1len = |b2|     *)
 (*   d2      b2 decoded                             e2   that re-encoded to b3;  fix: b3 = b2          *)
 (*   same    b2 = the input                         veq  decoded value = the generated value           *)
 (*   pan/hang/alloc   panicked, ran over the per-case deadline, bytes allocated by the first decode    *)
+(*   val-* only:  e0  the value with the field set was encoded (that encoding is the input);           *)
+(*                chg its encoding differs from the encoding of the value it was made from             *)
 \* "allocates beyond the message bound": what one decode may allocate is bounded by a constant factor of the
 \* bytes it was given (decoded representations are larger than the wire form) plus a constant
 CONSTANTS AllocFactor, AllocSlack
@@ -93,5 +170,15 @@ RoundTrip(o) == o.op \in {"valid", "var-bound"} => (o.d1 = 1 /\ o.veq = 1 /\ o.s
 \* (bytes appended to an encoding are only subject to the fixpoint law: a type without an extension field
 \* may drop them, and an unsorted extension may be re-sorted)
 Preserved(o) == o.op = "ext-odd" => (o.d1 = 1 /\ o.veq = 1 /\ o.same = 1)
-Laws(o) == Totality(o) /\ Bound(o) /\ Fixpoint(o) /\ RoundTrip(o) /\ Preserved(o)
+\* "every well-formed message value encodes to at most 65535 bytes and decodes back to an equal value", for a
+\* generated value in which one field was set to a boundary value of its domain.  A field whose value does not
+\* reach the encoding (chg = 0: Sig.sigType, the alpha channel of the colour, htlc_maximum_msat while its flag is
+\* clear, or simply the value the field already had) is not part of the wire value: nothing to come back.
+\* A field of a list element (inlist = 1) is bound by the list: encoded_short_ids (and the timestamps that go with
+\* them) are strictly ascending without duplicates, so a boundary value may collide with the neighbouring element
+\* and either side of the codec may refuse the list; what is accepted must still come back equal.
+ValueLaw(o) == (o.op \in ValOps /\ InDomain(o)) =>
+                  /\ (o.inlist = 0 => (o.e0 = 1 /\ o.d1 = 1))
+                  /\ ((o.e0 = 1 /\ o.d1 = 1) => (o.same = 1 /\ (o.chg = 1 => o.veq = 1)))
+Laws(o) == Totality(o) /\ Bound(o) /\ Fixpoint(o) /\ RoundTrip(o) /\ Preserved(o) /\ ValueLaw(o)
 =============================================================================
